@@ -112,6 +112,12 @@ class Pool:
             for i, c in enumerate(lst):
                 key = c.get("share") if share_constraints else None
                 out.append(self.constraint(c, key))
+            if share_constraints and lst and all(c.get("share") for c in lst):
+                # a user who shares constraint objects shares the *list* holding them as well: blocks with the same
+                # shared constraints receive the same Python list object
+                if not hasattr(self, "list_cache"):
+                    self.list_cache = {}
+                out = self.list_cache.setdefault(tuple(c["share"] for c in lst), out)
             return out
         op = tree["op"]
         if op == "cross":
@@ -128,14 +134,19 @@ class Pool:
             kw = {}
             if tree.get("align"):
                 kw["alignment"] = aligns[tree["align"]]
-            return sp.Merge([self.block(b, share_constraints, path + str(i)) for i, b in enumerate(tree["blocks"])],
-                            cons(tree["cons"]), modes[tree.get("mode", "repeat")], **kw)
+            subs = [self.block(b, share_constraints, path + str(i)) for i, b in enumerate(tree["blocks"])]
+            if share_constraints and not tree["cons"]:
+                # no constraints: leave the argument out, as the documentation's examples do (library default)
+                return sp.Merge(subs, mode=modes[tree.get("mode", "repeat")], **kw)
+            return sp.Merge(subs, cons(tree["cons"]), modes[tree.get("mode", "repeat")], **kw)
         if op == "nest":
             kw = {}
             if tree.get("align"):
                 kw["alignment"] = aligns[tree["align"]]
-            return sp.Nest(self.block(tree["outer"], share_constraints, path + "o"),
-                           self.block(tree["inner"], share_constraints, path + "i"), cons(tree["cons"]), **kw)
+            o_, i_ = self.block(tree["outer"], share_constraints, path + "o"), self.block(tree["inner"], share_constraints, path + "i")
+            if share_constraints and not tree["cons"]:
+                return sp.Nest(o_, i_, **kw)
+            return sp.Nest(o_, i_, cons(tree["cons"]), **kw)
         raise ValueError(op)
 
 
